@@ -19,18 +19,36 @@ from ..common import Acc, load_pt, chunks, rotate, MachineryError
 META = dict(
     level="model_checking", engine="E1",
     technique="bounded-exhaustive enumeration of material lists x weight vectors x densities x wavelength "
-              "argument forms on the real calculator, differential against the direct calculation",
-    rule=("every ordered list (with repetition) of the bound over 10 materials (light and heavy water, an oxide, a "
+              "argument forms on the real calculator, and of all two-call histories on one calculator (reused / "
+              "in-place updated weight array, overwritten outputs, a second live calculator), differential against "
+              "the direct calculation",
+    rule=("every ordered list (with repetition) of the bound over 12 materials (light and heavy water, an oxide, a "
           "strong 1/v absorber, three energy-dependent rare-earth materials of which pure Lu[176] has "
-          "sigma_s == sigma_c, two negative-b metals, and Au whose tabulated sigma_s is smaller than sigma_c so "
-          "that sigma_i really clips at zero), every weight vector over {0, 0.5, 1, 3}^n, every density "
+          "sigma_s == sigma_c, two negative-b metals, Au whose tabulated sigma_s is smaller than sigma_c so "
+          "that sigma_i really clips at zero, and two different materials that print the same), every weight vector "
+          "over {0, 0.5, 1, 3}^n, every density "
           "of {0, 1, 2.5}, every form of the wavelength argument; one calculator per (list, form); non-trivial = "
-          "non-zero total weight and non-zero density, so that three value vectors and three shapes are compared"),
+          "non-zero total weight and non-zero density, so that three value vectors and three shapes are compared.  "
+          "HISTORIES on calculators whose every single call was right: (a) the caller keeps ONE weight array and "
+          "updates it in place before every call - a de Bruijn walk makes every ordered pair of (weights, density) "
+          "states a pair of consecutive calls; (b) every returned array is overwritten by the caller, then the same "
+          "and the next state are asked for; (c) two calculators over the same material objects (two wavelength "
+          "forms) are called alternately with the same reused array, every ordered pair of weight vectors in both "
+          "roles; a history case is non-trivial when the judged call is not a vacuum and differs from the call "
+          "before it.  ARGUMENTS: the materials list, every Formula in it (structure with atoms by identity, "
+          "density, name, text) and the wavelength argument are compared with their state before the constructor "
+          "and again after all calls; the weight array is compared byte for byte after every call"),
     bound=dict(
-        quick="all 110 lists of length 1..2 and the 280 lists of length 3 in which a material is repeated; 4^n weight vectors; 3 densities; wavelength forms default, float, "
+        quick="all 156 lists of length 1..2 and the 408 lists of length 3 in which a material is repeated; 4^n weight "
+              "vectors; 3 densities; wavelength forms default, float, "
               "int, float beyond the resonance tables, length-1 array, length-4 array, length-4 list, length-4 tuple, "
-              "array whose length equals the number of materials",
-        thorough="all 1110 lists of length 1..3; 4^n weight vectors; 3 densities; the same nine wavelength forms"),
+              "array whose length equals the number of materials.  Histories: the lists among these over the 6 "
+              "materials H2O, B4C, Gd2O3, Lu[176], Au, C15D31(named) x forms {default, float, length-4 array, "
+              "length-n array}; n <= 2: all 12 / 48 states, i.e. 144 / 2304 ordered pairs; n = 3: weights {0, 1}^3 x "
+              "density {1, 2.5}, 256 ordered pairs",
+        thorough="all 1884 lists of length 1..3; 4^n weight vectors; 3 densities; the same nine wavelength forms.  "
+                 "Histories: every list of length 1..2 with all states and all nine forms; lists of 3 over the 6 "
+                 "materials above with weights {0, 1, 3}^3 x density {1, 2.5} (2916 ordered pairs), all nine forms"),
     assumptions=[
         "the formula sum_i w_i*material_i is handed to neutron_sld as the atom dictionary {atom: sum_i w_i*count_i} "
         "built by the check from each material's .atoms (formula arithmetic itself is C02)",
@@ -43,12 +61,23 @@ META = dict(
         "the shape of the direct route's outputs is not judged here (C04); it is broadcast to the calculator's",
         "per-atom b_c(lambda) and sigma_s(lambda) enter only the tolerance scales, read through "
         "Neutron.scattering_by_wavelength",
+        "a calculator answers for the materials and wavelengths it was built with; what it should do when the caller "
+        "changes the wavelength array, the materials list or a material AFTER construction is not in the statement: "
+        "such events are not in the alphabet (the caller only ever changes the weight array and the arrays returned "
+        "to it)",
+        "'unaltered argument' means the values a caller can read (list members by identity, Formula structure / "
+        "density / name / text, array bytes), not private attributes the library might attach to its own objects",
+        "histories longer than two calls are covered only as they occur inside the walks (each call is judged, but "
+        "not every triple of states occurs); private tables are not in the alphabet (the calculator has no table= "
+        "argument; per-table data is C10 / C20)",
     ],
     level_text="every member of the stated finite space was executed on the real calculator and compared with the "
                "direct route; the calculator is a fixed sequence of array operations whose only data-dependent "
                "branches are the vacuum test, the clip of sigma_i at zero and scalar-vs-sequence wavelength, all "
                "of which are taken both ways inside the bound; nothing is claimed for longer lists except through "
-               "the small-scope argument (sums over the list axis, broadcast over the wavelength axis)",
+               "the small-scope argument (sums over the list axis, broadcast over the wavelength axis); a calculator "
+               "that remembers anything of an earlier call, of the caller's array or of a sibling calculator is "
+               "exposed by the pair walks, in which every state follows every state",
     level_note="trusted: nsf.neutron_sld on an explicit atom dictionary (C03) as the reference route; numpy",
 )
 
@@ -117,6 +146,7 @@ class Env(object):
         self.NA = constants.avogadro_number
         self.F = [material_formula(formula, s) for s in MATERIALS]
         self.atoms = [list(f.atoms.items()) for f in self.F]
+        self.seen = [formula_state(f) for f in self.F]
         self.default_wavelength = nsf.ABSORPTION_WAVELENGTH
 
     def pyname(self, a):
@@ -125,6 +155,60 @@ class Env(object):
                 return "pt.%s" % a.symbol
             return "pt.%s[%d]" % (a.element.symbol, a.isotope)
         return "pt.%s" % a.symbol
+
+
+def _skey(structure):
+    """A formula structure with its atoms by identity (an equal atom of another table is another atom)."""
+    return tuple((float(c), _skey(x) if isinstance(x, (tuple, list)) else (id(x), str(x))) for c, x in structure)
+
+
+def formula_state(f):
+    """What a caller can see of a Formula object: structure (atoms by identity), density, name, text.  Not its
+    __dict__: private memo attributes would be the library's own business."""
+    return (_skey(f.structure), f.density, f.name, str(f))
+
+
+def arg_state(x):
+    """Value of a caller-owned argument: array bytes, list / tuple contents."""
+    if isinstance(x, np.ndarray):
+        return ("ndarray", x.dtype.str, x.shape, x.tobytes())
+    if isinstance(x, (list, tuple)):
+        return (type(x).__name__, tuple(arg_state(v) for v in x))
+    return ("value", repr(x))
+
+
+def de_bruijn_pairs(k):
+    """Cyclic sequence over range(k) of length k*k in which every ordered pair (a, b), a == b included, occurs
+    exactly once as two consecutive members (Fredricksen-Kessler-Maiorana); returned with its first member
+    appended, so that the k*k consecutive pairs of the LIST are all ordered pairs."""
+    a = [0] * (2 * k)
+    seq = []
+
+    def db(t, p):
+        if t > 2:
+            if 2 % p == 0:
+                seq.extend(a[1:p + 1])
+        else:
+            a[t] = a[t - p]
+            db(t + 1, p)
+            for j in range(a[t - p] + 1, k):
+                a[t] = j
+                db(t + 1, t)
+    db(1, 1)
+    seq.append(seq[0])
+    pairs = set(zip(seq, seq[1:]))
+    if len(seq) != k * k + 1 or len(pairs) != k * k:
+        raise MachineryError("de Bruijn walk over %d states covers %d of %d ordered pairs" % (k, len(pairs), k * k))
+    return seq
+
+
+_WALKS = {}
+
+
+def pair_walk(k):
+    if k not in _WALKS:
+        _WALKS[k] = de_bruijn_pairs(k)
+    return _WALKS[k]
 
 
 def all_lists(maxlen):
@@ -180,6 +264,7 @@ class ListCheck(object):
             self.n_atoms.append(na); self.mass.append(m)
             self.abs_re.append(are); self.abs_im.append(aim); self.sig.append(sg); self.bsum.append(bs)
         self.calc = None
+        self.recs = {}
 
     def case(self, weights=None, density=None):
         c = dict(materials=[MATERIALS[i] for i in self.mats], wl=self.form)
@@ -191,6 +276,7 @@ class ListCheck(object):
     def build(self, acc):
         E = self.E
         mats = [E.F[i] for i in self.mats]
+        wl_before = arg_state(self.wl)
         acc.evaluations += 1
         try:
             with np.errstate(all="ignore"):
@@ -203,40 +289,45 @@ class ListCheck(object):
                           expected="a calculator", observed="%s: %s" % (type(e).__name__, e),
                           standalone=_snippet(E, self.mats, [1] * len(self.mats), 1, self.form))
             return False
+        self._mats, self._wl_before = mats, wl_before
+        return self.arguments_intact(acc, mats, wl_before, "constructor")
+
+    def arguments_intact(self, acc, mats, wl_before, when):
+        """The caller's list of materials, the Formula objects in it and the wavelength argument are as before."""
+        E = self.E
+        snip = _snippet(E, self.mats, [1] * len(self.mats), 1, self.form)
+        if len(mats) != len(self.mats) or any(m is not E.F[i] for m, i in zip(mats, self.mats)):
+            acc.violation("argument-altered:%s:materials-list" % when, self.case(),
+                          expected=[MATERIALS[i] for i in self.mats], observed=[str(m) for m in mats], standalone=snip)
+            return False
+        for i in self.mats:
+            now = formula_state(E.F[i])
+            if now != E.seen[i]:
+                acc.violation("argument-altered:%s:material-formula" % when, self.case(),
+                              expected=repr(E.seen[i][1:]), observed=repr(now[1:]), standalone=snip,
+                              detail="structure (atoms by identity) %s" % ("unchanged" if now[0] == E.seen[i][0]
+                                                                           else "changed"))
+                return False
+        if arg_state(self.wl) != wl_before:
+            acc.violation("argument-altered:%s:wavelength:%s" % (when, self.form), self.case(),
+                          expected=repr(wl_before[-1]), observed=repr(arg_state(self.wl)[-1]), standalone=snip)
+            return False
         return True
 
-    def check(self, acc, weights, density):
-        """One application of the calculator.  Returns False on a violation."""
+    def expect(self, weights, density):
+        """What the direct route says for (weights, density): a record, computed once per calculator.
+        vacuum -> dict(vacuum=why); else dict(exp=[3 arrays] or None (direct route's shape cannot be broadcast: not
+        judged), scales, class of the incoherent term)."""
+        key = (tuple(float(x) for x in weights), float(density))
+        rec = self.recs.get(key)
+        if rec is not None:
+            return rec
         E = self.E
-        acc.states += 1
-        acc.transitions += 1
-        acc.evaluations += 2
-        w = np.array(weights, dtype=float)
-        case = self.case(weights, density)
-        snip = lambda: _snippet(E, self.mats, weights, density, self.form)
         total_mass = sum(wi * m for wi, m in zip(weights, self.mass))
-        vacuum = total_mass == 0 or density == 0
-        try:
-            with np.errstate(all="ignore"):
-                got = self.calc(w, density=density)
-            got = tuple(got)
-            if len(got) != 3:
-                raise ValueError("calculator returned %d values" % len(got))
-        except Exception as e:
-            acc.violation("raises:%s:%s" % (type(e).__name__, self.kind), case,
-                          expected="(real, imaginary, incoherent)", observed="%s: %s" % (type(e).__name__, e),
-                          standalone=snip())
-            return False
-        if vacuum:
-            why = "zero-weight" if total_mass == 0 else "zero-density"
-            if not all(np.all(np.asarray(g) == 0) for g in got):
-                acc.violation("vacuum-not-zero:%s:%s" % (why, self.kind), case, expected=[0, 0, 0],
-                              observed=[np.asarray(g).tolist() for g in got], standalone=snip())
-                return False
-            acc.outcome("%s:%s:zeros" % (self.form, why))
-            return True
-        acc.nontrivial += 1
-        # the direct route on the weighted sum
+        if total_mass == 0 or density == 0:
+            rec = dict(vacuum="zero-weight" if total_mass == 0 else "zero-density")
+            self.recs[key] = rec
+            return rec
         atoms = {}
         for i, wi in zip(self.mats, weights):
             if wi == 0:
@@ -248,18 +339,10 @@ class ListCheck(object):
                 exp = E.nsf.neutron_sld(atoms, density=density)
             else:
                 exp = E.nsf.neutron_sld(atoms, density=density, wavelength=self.wl)
-        # shapes
-        for name, g in zip(("real", "imaginary", "incoherent"), got):
-            if np.shape(g) != self.shape:
-                acc.violation("shape:%s:%s" % (self.form if self.form != "arrN" else "arrN", name), case,
-                              expected=list(self.shape), observed=list(np.shape(g)), standalone=snip())
-                return False
         try:
-            exp = [np.broadcast_to(np.asarray(x, dtype=float), self.shape) for x in exp]
+            exp = [np.array(np.broadcast_to(np.asarray(x, dtype=float), self.shape)) for x in exp]
         except ValueError:
-            acc.count("direct_route_shape_not_broadcastable_not_judged")
-            return True
-        got = [np.asarray(g, dtype=float) for g in got]
+            exp = None
         # scales (sums of magnitudes of the terms)
         n_atoms = sum(wi * x for wi, x in zip(weights, self.n_atoms))
         per_volume = density * E.NA * 1e-24 / total_mass          # formula units per cubic Angstrom
@@ -268,33 +351,245 @@ class ListCheck(object):
         sc_im = 10 * per_volume * sum(wi * x for wi, x in zip(weights, self.abs_im))
         sigma_s = sum(wi * x for wi, x in zip(weights, self.sig)) / n_atoms
         sc_re, sc_im, sigma_s = [np.asarray(x).reshape(self.shape) for x in (sc_re, sc_im, sigma_s)]
-        for name, g, e, sc in (("real", got[0], exp[0], sc_re), ("imaginary", got[1], exp[1], sc_im)):
-            ok = np.abs(g - e) <= REL * np.maximum(np.maximum(np.abs(sc), np.abs(g)), np.abs(e)) + 1e-300
-            if not np.all(ok):          # NaN compares False
-                acc.violation("%s:%s" % (name, self.kind), case, expected=e.tolist(), observed=g.tolist(),
-                              standalone=snip(), detail="scale %r" % (np.asarray(sc).tolist(),))
-                return False
-        si_g = (got[2] / (10 * number_density)) ** 2 * _4PI_100
-        si_e = (exp[2] / (10 * number_density)) ** 2 * _4PI_100
-        ok = np.abs(si_g - si_e) <= REL * np.maximum(si_g, si_e) + ABS_SIGMA * sigma_s + 1e-300
         # class of the incoherent term, for the outcome histogram and the signature
         b = sum(wi * x for wi, x in zip(weights, self.bsum)) / n_atoms
         diff = sigma_s - _4PI_100 * abs(np.asarray(b).reshape(self.shape)) ** 2
         pos = diff > ABS_SIGMA * sigma_s
         cls = "positive" if np.all(pos) else "clipped-or-noise" if not np.any(pos) else "both"
+        rec = dict(vacuum=None, exp=exp, number_density=number_density, sc_re=sc_re, sc_im=sc_im, sigma_s=sigma_s,
+                   cls=cls)
+        if exp is not None:
+            rec["si_e"] = (exp[2] / (10 * number_density)) ** 2 * _4PI_100
+        self.recs[key] = rec
+        return rec
+
+    def judge(self, acc, got, rec, case, snip, history=None):
+        """Compare what the calculator returned with the record of expect().  history = None: the call stands
+        alone (signatures name the part that is wrong); history = a signature: the same (weights, density) was
+        right with a fresh array on a calculator without history, so a difference is named after the history."""
+        def sig(alone):
+            return history if history else alone
+
+        def extra(part):
+            return dict(case, part=part) if history else case
+        if rec["vacuum"]:
+            why = rec["vacuum"]
+            if not all(np.all(np.asarray(g) == 0) for g in got):
+                acc.violation(sig("vacuum-not-zero:%s:%s" % (why, self.kind)), extra("vacuum:" + why), expected=[0, 0, 0],
+                              observed=[np.asarray(g).tolist() for g in got], standalone=snip())
+                return False
+            if not history:
+                acc.outcome("%s:%s:zeros" % (self.form, why))
+            return True
+        # shapes
+        for name, g in zip(("real", "imaginary", "incoherent"), got):
+            if np.shape(g) != self.shape:
+                acc.violation(sig("shape:%s:%s" % (self.form if self.form != "arrN" else "arrN", name)),
+                              extra("shape:" + name), expected=list(self.shape), observed=list(np.shape(g)),
+                              standalone=snip())
+                return False
+        exp = rec["exp"]
+        if exp is None:
+            if not history:
+                acc.count("direct_route_shape_not_broadcastable_not_judged")
+            return True
+        got = [np.asarray(g, dtype=float) for g in got]
+        for name, g, e, sc in (("real", got[0], exp[0], rec["sc_re"]), ("imaginary", got[1], exp[1], rec["sc_im"])):
+            ok = np.abs(g - e) <= REL * np.maximum(np.maximum(np.abs(sc), np.abs(g)), np.abs(e)) + 1e-300
+            if not np.all(ok):          # NaN compares False
+                acc.violation(sig("%s:%s" % (name, self.kind)), extra(name), expected=e.tolist(), observed=g.tolist(),
+                              standalone=snip(), detail="scale %r" % (np.asarray(sc).tolist(),))
+                return False
+        sigma_s, cls = rec["sigma_s"], rec["cls"]
+        si_g = (got[2] / (10 * rec["number_density"])) ** 2 * _4PI_100
+        si_e = rec["si_e"]
+        ok = np.abs(si_g - si_e) <= REL * np.maximum(si_g, si_e) + ABS_SIGMA * sigma_s + 1e-300
         if not np.all(ok) or np.any(got[2] < 0):
-            acc.violation("incoherent:%s:sigma_i-%s" % (self.kind, cls), case, expected=exp[2].tolist(),
-                          observed=got[2].tolist(), standalone=snip(),
+            acc.violation(sig("incoherent:%s:sigma_i-%s" % (self.kind, cls)), extra("incoherent"),
+                          expected=exp[2].tolist(), observed=got[2].tolist(), standalone=snip(),
                           detail="sigma_i expected %r observed %r, sigma_s %r"
                                  % (np.asarray(si_e).tolist(), np.asarray(si_g).tolist(), np.asarray(sigma_s).tolist()))
             return False
-        acc.outcome("%s:values:sigma_i-%s" % (self.form, cls))
+        if not history:
+            acc.outcome("%s:values:sigma_i-%s" % (self.form, cls))
+        return True
+
+    def call(self, acc, w, density, case, snip, history=None):
+        """One application of the calculator to the caller's array w; the array must come back as it went in.
+        Returns the three outputs or None after a violation."""
+        before = w.tobytes()
+        try:
+            with np.errstate(all="ignore"):
+                got = self.calc(w, density=density)
+            got = tuple(got)
+            if len(got) != 3:
+                raise ValueError("calculator returned %d values" % len(got))
+        except Exception as e:
+            acc.violation(history or "raises:%s:%s" % (type(e).__name__, self.kind),
+                          dict(case, part="raises") if history else case,
+                          expected="(real, imaginary, incoherent)", observed="%s: %s" % (type(e).__name__, e),
+                          standalone=snip())
+            return None
+        if w.tobytes() != before:
+            acc.violation("argument-altered:weights:%s" % self.kind, case,
+                          expected=np.frombuffer(before, dtype=w.dtype).tolist(), observed=w.tolist(), standalone=snip())
+            return None
+        return got
+
+    def check(self, acc, weights, density):
+        """One application of the calculator (fresh weight array).  Returns False on a violation."""
+        acc.states += 1
+        acc.transitions += 1
+        acc.evaluations += 2
+        w = np.array(weights, dtype=float)
+        case = self.case(weights, density)
+        snip = lambda: _snippet(self.E, self.mats, weights, density, self.form)
+        got = self.call(acc, w, density, case, snip)
+        if got is None:
+            return False
+        rec = self.expect(weights, density)
+        if not rec["vacuum"]:
+            acc.nontrivial += 1
+        return self.judge(acc, got, rec, case, snip)
+
+
+    # ------------------------------------------------------------------ histories on one calculator
+    def history_case(self, mode, prev, cur, **extra):
+        c = self.case(cur[0], cur[1])
+        c["mode"] = mode
+        c["previous"] = [[float(x) for x in prev[0]], prev[1]]
+        c.update(extra)
+        return c
+
+    def history_snippet(self, mode, prev, cur, other=None):
+        E, n = self.E, len(self.mats)
+        wl = _wl_code(self.form, n)
+        lines = _snippet(E, self.mats, cur[0], cur[1], self.form).rstrip("\n").split("\n")
+        head, last, direct = lines[:-2], lines[-2], lines[-1]
+        pw, pd = [float(x) for x in prev[0]], prev[1]
+        cw, cd = [float(x) for x in cur[0]], cur[1]
+        if mode == "reuse":
+            body = ["w = np.array(%r)" % (pw,), "calc(w, density=%r)" % (pd,),
+                    "w[:] = %r          # the caller updates the same array in place" % (cw,),
+                    "print(calc(w, density=%r))" % (cd,)]
+        elif mode == "two":
+            wl2 = _wl_code(other.form, n)
+            body = ["calc2 = nsf.neutron_composite_sld(materials%s)" % ("" if wl2 is None else ", wavelength=%s" % wl2),
+                    "w = np.array(%r)" % (pw,), "calc2(w, density=%r)" % (pd,), "w[:] = %r" % (cw,),
+                    "print(calc(w, density=%r))" % (cd,)]
+        else:
+            body = ["out = calc(np.array(%r), density=%r)" % (pw, pd),
+                    "for x in out:", "    if isinstance(x, np.ndarray): x[...] = %r    # the caller's own arrays now" % SCRIBBLE,
+                    "print(calc(np.array(%r), density=%r))" % (cw, cd)]
+        return "\n".join(head + body + [direct]) + "\n"
+
+    def step(self, acc, w, state, prev, mode, signature, other=None, judged_by=None):
+        """One call inside a history.  The expectation of (weights, density) was established by a call with a
+        fresh array (first pass); whatever differs now is due to the history and is named after it."""
+        lc = judged_by or self
+        weights, density = state
+        acc.transitions += 1
+        acc.evaluations += 1
+        if prev is not None:
+            acc.states += 1                 # a history (previous call, this call) is one case
+        case = lc.history_case(mode, prev if prev is not None else state, state,
+                               **(dict(wl2=other.form) if other is not None else {}))
+        snip = lambda: lc.history_snippet(mode, prev if prev is not None else state, state, other)
+        got = lc.call(acc, w, density, case, snip, history=signature)
+        if got is None:
+            return None
+        rec = lc.expect(weights, density)
+        if prev is not None and not rec["vacuum"] and prev != state:
+            acc.nontrivial += 1
+        if not lc.judge(acc, got, rec, case, snip, history=signature):
+            return None
+        return got
+
+    def reuse_walk(self, acc, states, seq):
+        """The caller keeps ONE weight array and updates it in place before every call (a fit loop): every ordered
+        pair of states is a pair of consecutive calls."""
+        w = np.zeros(len(self.mats))
+        prev = None
+        for idx in seq:
+            w[:] = states[idx][0]
+            if self.step(acc, w, states[idx], prev, "reuse", "history:reused-weights-array:%s" % self.kind) is None:
+                return False
+            prev = states[idx]
+        acc.outcome("history:reused-weights-array:%s:ok" % self.kind)
+        return True
+
+    def two_walk(self, acc, other, wvecs, dens, seq):
+        """Two calculators over the same material objects (another wavelength form) are alive at the same time and
+        are called alternately with the same, reused, weight array: every ordered pair of weight vectors occurs
+        once as (this, other) and once as (other, this)."""
+        w = np.zeros(len(self.mats))
+        for phase in (0, 1):
+            prev = None
+            for t, idx in enumerate(seq):
+                lc, ot = (self, other) if (t + phase) % 2 == 0 else (other, self)
+                state = (wvecs[idx], dens[(t + phase) % len(dens)])
+                w[:] = state[0]
+                if self.step(acc, w, state, prev, "two", "history:two-calculators-interleaved:%s-after-%s"
+                             % (lc.kind, ot.kind), other=ot, judged_by=lc) is None:
+                    return False
+                prev = state
+        acc.outcome("history:two-calculators-interleaved:%s/%s:ok" % (self.kind, other.kind))
+        return True
+
+    def scribble_walk(self, acc, states):
+        """What the calculator returns belongs to the caller: every returned array is overwritten after it has
+        been judged, then the same state and the next state are asked for (fresh weight arrays)."""
+        prev = None
+        for state in states:
+            for _ in (0, 1):
+                w = np.array(state[0], dtype=float)
+                got = self.step(acc, w, state, prev, "scribble",
+                                "history:caller-writes-into-returned-arrays:%s" % self.kind)
+                if got is None:
+                    return False
+                for g in got:
+                    if isinstance(g, np.ndarray) and g.flags.writeable:
+                        g[...] = SCRIBBLE
+                prev = state
+        acc.outcome("history:caller-writes-into-returned-arrays:%s:ok" % self.kind)
         return True
 
 
-def check_list(E, acc, mats, forms, sample=False):
+SCRIBBLE = -7250.0
+
+
+# Histories (calls that follow other calls on the same calculator / with the same array) are explored on the
+# lists over WALK_MATERIALS: the history of a calculator does not know which materials it was built from beyond
+# "energy-dependent (complex, per-wavelength values) or not", "repeated or not", "same text or not".
+WALK_MATERIALS = ("H2O", "B4C", "Gd2O3", "Lu[176]", "Au", "C15D31 name=tail")
+WALK_FORMS_QUICK = ("default", "float", "arr4", "arrN")
+WALK3_QUICK = ((0, 1), (1, 2.5))
+WALK3_THOROUGH = ((0, 1, 3), (1, 2.5))
+TWO_DENSITIES = (1, 2.5)
+
+
+def walk_plan(mats, tier):
+    """(states of the walk, wavelength forms that are walked) for this list, or None: no histories for it.
+    quick: lists over WALK_MATERIALS; n <= 2: all (weights, density) of the first pass, n = 3: weights {0, 1}^3 x
+    density {1, 2.5}; four wavelength forms.  thorough: every list of n <= 2 with all states and all forms; lists
+    of 3 over WALK_MATERIALS with weights {0, 1, 3}^3 x density {1, 2.5}, all forms."""
+    n = len(mats)
+    sub = all(MATERIALS[i] in WALK_MATERIALS for i in mats)
+    quick = tier == "quick"
+    if (quick or n > 2) and not sub:
+        return None
+    if n <= 2:
+        states = [(w, d) for w in itertools.product(WEIGHTS, repeat=n) for d in DENSITIES]
+    else:
+        ws, ds = WALK3_QUICK if quick else WALK3_THOROUGH
+        states = [(w, d) for w in itertools.product(ws, repeat=n) for d in ds]
+    return states, (WALK_FORMS_QUICK if quick else FORMS_THOROUGH)
+
+
+def check_list(E, acc, mats, forms, sample=False, only=None, tier="quick"):
     n = len(mats)
     wvecs = list(itertools.product(WEIGHTS, repeat=n))
+    clean = []
     for form in forms:
         if form == "arrN" and n == 1:
             continue            # identical to 'arr1' up to the wavelength value
@@ -310,8 +605,28 @@ def check_list(E, acc, mats, forms, sample=False):
             if stop:
                 break               # one violation per (list, form) is enough
         else:
+            clean.append(lc)
             if sample:
                 acc.sample(lc.case(wvecs[-1], DENSITIES[-1]))
+    # histories: only on calculators whose every single call (fresh array, no history) was right
+    plan = walk_plan(mats, tier)
+    if plan is None:
+        return
+    states, walk_forms = plan
+    seq = pair_walk(len(states))
+    hw = sorted(set(w for w, _ in states))
+    seq2 = pair_walk(len(hw))
+    walkers = [lc for lc in clean if lc.form in walk_forms]
+    for k, lc in enumerate(walkers):
+        if only is not None and lc.form not in only:
+            continue
+        ok = lc.reuse_walk(acc, states, seq) and lc.scribble_walk(acc, states)
+        if ok and len(walkers) > 1:
+            ok = lc.two_walk(acc, walkers[(k + 1) % len(walkers)], hw, TWO_DENSITIES, seq2)
+        if ok:
+            lc.arguments_intact(acc, lc._mats, lc._wl_before, "calls")
+        acc.count("history_walks")
+    acc.info["max_walk_states"] = max(acc.info.get("max_walk_states", 0), len(states))
 
 
 def _shard(args):
@@ -320,7 +635,7 @@ def _shard(args):
     acc = Acc()
     forms = FORMS_QUICK if tier == "quick" else FORMS_THOROUGH
     for k, mats in enumerate(lists):
-        check_list(E, acc, mats, forms, sample=(k == 0))
+        check_list(E, acc, mats, forms, sample=(k == 0), tier=tier)
     acc.traces = acc.transitions
     return acc
 
@@ -351,5 +666,47 @@ def replay(ctx, case, signature=None):
     lc = ListCheck(E, mats, case["wl"])
     if not lc.build(ctx.acc):
         return
-    if "weights" in case:
-        lc.check(ctx.acc, tuple(case["weights"]), case["density"])
+    mode = case.get("mode")
+    if mode is None:
+        if "weights" in case:
+            lc.check(ctx.acc, tuple(case["weights"]), case["density"])
+        return
+    # a history: first the recorded pair of calls on a new calculator ...
+    prev = (tuple(case["previous"][0]), case["previous"][1])
+    cur = (tuple(case["weights"]), case["density"])
+    acc = ctx.acc
+    if mode == "reuse":
+        w = np.zeros(len(mats))
+        w[:] = prev[0]
+        if lc.step(acc, w, prev, None, mode, "history:reused-weights-array:%s" % lc.kind) is not None:
+            w[:] = cur[0]
+            lc.step(acc, w, cur, prev, mode, "history:reused-weights-array:%s" % lc.kind)
+    elif mode == "two":
+        other = ListCheck(E, mats, case["wl2"])
+        if not other.build(acc):
+            return
+        w = np.zeros(len(mats))
+        w[:] = prev[0]
+        if lc.step(acc, w, prev, None, mode, "history:two-calculators-interleaved:%s-after-%s" % (other.kind, lc.kind),
+                   other=lc, judged_by=other) is not None:
+            w[:] = cur[0]
+            lc.step(acc, w, cur, prev, mode, "history:two-calculators-interleaved:%s-after-%s" % (lc.kind, other.kind),
+                    other=other, judged_by=lc)
+    elif mode == "scribble":
+        sig = "history:caller-writes-into-returned-arrays:%s" % lc.kind
+        got = lc.step(acc, np.array(prev[0], dtype=float), prev, None, mode, sig)
+        if got is not None:
+            for g in got:
+                if isinstance(g, np.ndarray) and g.flags.writeable:
+                    g[...] = SCRIBBLE
+            lc.step(acc, np.array(cur[0], dtype=float), cur, prev, mode, sig)
+    else:
+        raise MachineryError("unknown replay mode %r" % (mode,))
+    if acc.viol:
+        return
+    # ... then, if the pair alone is silent, every history of this list (the recorded call may need more of it)
+    scratch = Acc()
+    check_list(E, scratch, mats, FORMS_THOROUGH, tier="thorough" if len(mats) <= 2 else ctx.tier)
+    for sig, rec in scratch.viol.items():
+        if signature is None or sig == signature:
+            acc.viol[sig] = rec
